@@ -318,6 +318,16 @@ def auto_resize_bound_cases(ctx):
                 cases.append((prog, ('>0' + '1b' * j) * 14, cf))
     return cases
 
+def lazy_destroy_cases(ctx):
+    """lazy resize carried out by the library's work-queue thread (AUTO_RESIZE; the worker is thread 1 of the run), the table emptied and destroyed while the resize is
+    queued / running / just finished (incl. the tail of the work item after resize_initiated is cleared): everything the destruction releases is quarantined"""
+    acases = []
+    for prog in ('A3A4A6A9L3XL4XL6XL9XY', 'A4A6A3A9L9XL3XL6XL4XY'):
+        for j in range(0, 150 if ctx.quick() else 320, 2 if ctx.quick() else 1):
+            for k in (9, 7):       # the owner completes all (or all but the last two) of its remaining operations at once, after the worker has taken j steps
+                acases.append((prog, '>0' * 5 + '1b' * j + '>0' * k + '1b' * 3 + '>0>0', ('1', '8', 'o', '0', '0', '1')))
+    return acases
+
 def partitioned_seq_cases(ctx):
     """one user thread; every resize level goes through the partitioned multi-thread path (helper threads created by the library, scheduled between the user's operations)"""
     cases = []
